@@ -116,6 +116,13 @@ func Footprint(v *vrt.Ctx) {
 	cfg := engine.Config{Root: "root", FlagCount: 4, OutputSize: 80}
 	enA := engine.NewEngine(cfg, resourceOver(shared, which))
 	enB := engine.NewEngine(cfg, resourceOver(shared, which))
+	if v.Param("debug") == 1 {
+		// state and engine debugging on, each session with a debug writer of
+		// its own: the flag-name registry is process-wide and must only be read
+		cfg.EngineDebug = true
+		enA = engine.NewEngine(cfg, resourceOver(shared, which)).WithDebug(engine.NewSimpleDebug(&app.Sink{}))
+		enB = engine.NewEngine(cfg, resourceOver(shared, which)).WithDebug(engine.NewSimpleDebug(&app.Sink{}))
+	}
 	// initialise both (package initialisers have run); from here on every
 	// write is checked
 	v.TrackFootprint(true)
